@@ -80,7 +80,7 @@ Proof. vm_compute. split; reflexivity. Qed.
 From AV.Model Require Import Interp.
 From AV.Spec Require Import WorldSpec.
 From AV.Proofs Require Import WorldProofs.
-(** WHOLE HISTORIES: drain AND splice are part of the history fragment of AV.Props.C01 - for EVERY range in every RangeBounds form (invalid ranges panic with the right kind before the vector changes: [C02_into_range_panics]), EVERY sequence of next / next_back calls of any length (also after exhaustion) whose items are dropped or downcast, erased and typed variant, iterator dropped or leaked: the list specifications [WorldSpec.sp_drain] / [WorldSpec.sp_splice] (yielded values front-ascending / back-descending, exact size hints, Vec::drain's / Vec::splice's result, the un-yielded values destroyed in order, then the replacement values pulled and moved in) are what the byte-level machine does, inside any history of any number of vectors ([C01_history_refines] covers ODrain and OSplice; [C02_walk] is the per-pattern induction).  Splice fragment ([C02_splice_in_histories]): ANY number of replacement values of the vector's element type, handed over by value or boxed, honest size hint; a result that does not fit a fixed capacity (or whose length is not representable) panics, destroys every replacement value once and leaves the prefix; a leaked Splice leaks the replacement values; an invalid range destroys them.  Still PARTIAL (one-step theorems above + correspondence): replacement iterators that lie about their length, yield lazily cloned or wrong-typed items, and item sinks that move yielded values into other vectors. *)
+(** WHOLE HISTORIES: drain AND splice are part of the history fragment of AV.Props.C01 - for EVERY range in every RangeBounds form (invalid ranges panic with the right kind before the vector changes: [C02_into_range_panics]), EVERY sequence of next / next_back / nth / nth_back calls of any length (also after exhaustion; items passed over by nth, skip or step_by are destroyed like dropped ones and never reported: [KSkip]) whose items are dropped or downcast, erased and typed variant, iterator dropped or leaked: the list specifications [WorldSpec.sp_drain] / [WorldSpec.sp_splice] (yielded values front-ascending / back-descending, exact size hints, Vec::drain's / Vec::splice's result, the un-yielded values destroyed in order, then the replacement values pulled and moved in) are what the byte-level machine does, inside any history of any number of vectors ([C01_history_refines] covers ODrain and OSplice; [C02_walk] is the per-pattern induction).  Splice fragment ([C02_splice_in_histories]): ANY number of replacement values of the vector's element type, handed over by value or boxed, honest size hint; a result that does not fit a fixed capacity (or whose length is not representable) panics, destroys every replacement value once and leaves the prefix; a leaked Splice leaks the replacement values; an invalid range destroys them.  Still PARTIAL (one-step theorems above + correspondence): replacement iterators that lie about their length, yield lazily cloned or wrong-typed items, and item sinks that move yielded values into other vectors. *)
 Theorem C02_into_range_panics :
   forall (len : N) (sb eb : bound) (s : st),
          range_of_bounds usize_max len (to_sb sb) (to_sb eb) = None ->
